@@ -1152,6 +1152,14 @@ class ReversedType(_ParameterizedType):
         return subtype.cql_parameterized_type()
 
     @classmethod
+    def serial_size(cls):
+        # encoded exactly as the wrapped type, so of the same (fixed or variable) size
+        if not cls.subtypes:
+            return None
+        subtype, = cls.subtypes
+        return subtype.serial_size()
+
+    @classmethod
     def deserialize_safe(cls, byts, protocol_version):
         subtype, = cls.subtypes
         return subtype.from_binary(byts, protocol_version)
@@ -1165,6 +1173,14 @@ class ReversedType(_ParameterizedType):
 class FrozenType(_ParameterizedType):
     typename = "frozen"
     num_subtypes = 1
+
+    @classmethod
+    def serial_size(cls):
+        # encoded exactly as the wrapped type, so of the same (fixed or variable) size
+        if not cls.subtypes:
+            return None
+        subtype, = cls.subtypes
+        return subtype.serial_size()
 
     @classmethod
     def deserialize_safe(cls, byts, protocol_version):
